@@ -84,6 +84,7 @@ def _plan(tier, seed):
         ch.append({'k': 'text', 'first': first, 'maxlen': n})
     ch.append({'k': 'text_long'})
     ch.append({'k': 'plugin_json'})
+    ch.append({'k': 'interleaved'})
     ch += [{'k': 'builtin_bytes', 'part': i, 'parts': 8} for i in range(8)]
     return ch
 
@@ -173,6 +174,8 @@ LAST = {'mode': None}
 
 
 def eval_case(case):
+    if 'secs' in case:
+        return eval_multi(case)
     LAST['mode'] = 'undecoded'
     impl.ensure(False)
     if not imphook.STATE['installed'] or imphook.BEHAVIOUR != behaviour_table():
@@ -229,6 +232,25 @@ def eval_case(case):
     elif mode == 'decoded':
         if not rest:
             bad('decoded-empty', 'well-behaved parser output not shown')
+    return out
+
+
+def eval_multi(case):
+    impl.ensure(False)
+    p = pelgen.pel_from_spec({'creator': 'O', 'sections': [dict(x) for x in case['secs']] + [SENTINEL]})
+    r = decode.parse(pelgen.encode_pel(p), plugins=case['plugins'])
+    out = []
+    if r['kind'] != 'doc':
+        return [{'key': 'C04:not-decoded', 'what': 'not-decoded: %s %s' % (r['kind'], r.get('msg')), 'case': case}]
+    want = pelgen.expected_keys(p)
+    if list(r['doc'].keys()) != want:
+        return [{'key': 'C04:section-missing', 'what': 'section-missing: document has %r, the PEL holds %r' % (list(r['doc'].keys()), want),
+                 'case': case}]
+    for name, sec in zip(want[2:], p['sections']):
+        m = pelgen.check_entry(sec, r['doc'][name], 'O', {})
+        if m:
+            out.append({'key': 'C04:payload-lost', 'what': 'payload-lost: %s: %s' % (name, '; '.join(m)), 'case': case})
+            break
     return out
 
 
@@ -322,6 +344,18 @@ def run_chunk(chunk):
                 _do(res, {'sec': _sec('UD', raw, comp=0x2000, sub=sub)}, every=997)
                 if len(raw) != 2:
                     _do(res, {'sec': _sec('ED', raw, comp=0x2000, sub=sub, ed_creator='O'), 'creator': 'H'}, every=997)
+    elif k == 'interleaved':
+        # several sections without a decoder in one PEL, same kinds recurring with others in between: every one must still
+        # appear with its own payload
+        kinds = [('UD', {}), ('ED', {}), ('ZZ', {}), ('YY', {}), ('DH', {})]
+        for combo in itertools.product(range(len(kinds)), repeat=3):
+            secs = [_sec(kinds[i][0], bytes([0x10 * (n + 1) + i] * (5 + n)), comp=0xABC0 + n) for n, i in enumerate(combo)]
+            for plugins in (True, False):
+                core.arm()
+                vs = eval_multi({'secs': secs, 'plugins': plugins})
+                core.disarm()
+                res.case(nontrivial_key=json.dumps([combo, plugins]), outcome=vs[0]['key'] if vs else 'ok:interleaved')
+                res.add(vs)
     elif k == 'plugin_json':
         # the shipped hardware-diagnostics plug-in hands JSON from the payload (callout FFDC, sub-type 3) back to the tool
         texts = [b'{"Callout List": [{"Priority": 1e999}]}', b'{"Callout List": [NaN, Infinity, -Infinity]}', b'NaN', b'[1e999]',
